@@ -6,7 +6,7 @@
 From Coq Require Import List ZArith Lia Bool Arith.
 Import ListNotations.
 Require Import Vault Row Table Grid Tableabs Transform Transformspec Transformproof Transformproof2 Transformproof3
-               Transformproof4 Transformproof5.
+               Transformproof4 Transformproof5 Transformproof7 Transformproof9 Transformproof10.
 Open Scope Z_scope.
 
 (* ================= rstrip ================= *)
@@ -55,6 +55,82 @@ Theorem C17_transpose_swaps_coordinates : forall (t : tstate) (x y : Z), WF t ->
   gcell y x (abs_t (t_transpose t)) = gcell x y (abs_t t).
 Proof. exact transpose_swaps_model. Qed.
 Print Assumptions C17_transpose_swaps_coordinates.
+
+(* ================= set_span / del_span ================= *)
+(* the model of set_span (get_cell over the area, marks, set_cells(clone=False)) refines its grid meaning, for every
+   run-length encoding: also when an edge of the area falls inside a repeated run of cells or of rows *)
+Theorem C17_set_span_refines : forall (a : calg) (x y z t : Z) (m : bool) (mid : Z) (st : tstate), WF st -> 0 <= x -> 0 <= y ->
+  exists st' r, t_set_span a x y z t m mid st = Some (st', r) /\ WF st' /\
+                (abs_t st', r) = g_set_span a x y z t m mid (abs_t st).
+Proof. exact set_span_refines. Qed.
+Print Assumptions C17_set_span_refines.
+
+Theorem C17_del_span_refines : forall (a : calg) (x y : Z) (st : tstate), WF st -> 0 <= x -> 0 <= y ->
+  match g_del_span a x y (abs_t st) with
+  | Some (g', r) => exists st', t_del_span a x y st = Some (st', r) /\ WF st' /\ abs_t st' = g'
+  | None => t_del_span a x y st = None
+  end.
+Proof. exact del_span_refines. Qed.
+Print Assumptions C17_del_span_refines.
+
+(* a span covers exactly the requested area: the first cell carries the two attributes with the size of the area,
+   every other cell of the area gets the covered tag, every other coordinate of the table reads as before
+   (no hypothesis on the algebra: this is the explicit form of the result) *)
+Theorem C17_set_span_covers_exactly_the_area : forall (a : calg) (x y z t mid : Z) (st st' : tstate),
+  WF st -> 0 <= x <= z -> 0 <= y <= t ->
+  t_set_span a x y z t false mid st = Some (st', true) ->
+  forall i j, 0 <= i -> 0 <= j ->
+  gcell i j (abs_t st') =
+    let c := gcell i j (abs_t st) in
+    if in_area x y z t i j then
+      (if (i =? x) && (j =? y) then (ca_add_span a (fst c) (z - x + 1) (t - y + 1), snd c) else cov a c)
+    else c.
+Proof. exact set_span_explicit_model. Qed.
+Print Assumptions C17_set_span_covers_exactly_the_area.
+
+(* it refuses to overlap an existing span (and a one-cell area): answers False and changes nothing; otherwise it answers True *)
+Theorem C17_set_span_refuses_overlap : forall (a : calg) (x y z t : Z) (m : bool) (mid : Z) (st : tstate),
+  WF st -> 0 <= x -> 0 <= y ->
+  ((x =? z) && (y =? t)) || any_spanned a (g_area_cells x y z t (abs_t st)) = true ->
+  t_set_span a x y z t m mid st = Some (st, false).
+Proof. exact set_span_refuses_model. Qed.
+Print Assumptions C17_set_span_refuses_overlap.
+
+Theorem C17_set_span_accepts_free_area : forall (a : calg) (x y z t : Z) (m : bool) (mid : Z) (st : tstate),
+  WF st -> 0 <= x -> 0 <= y ->
+  ((x =? z) && (y =? t)) || any_spanned a (g_area_cells x y z t (abs_t st)) = false ->
+  exists st', t_set_span a x y z t m mid st = Some (st', true) /\ WF st'.
+Proof. exact set_span_accepts_model. Qed.
+Print Assumptions C17_set_span_accepts_free_area.
+
+(* it never changes a value unless merging was asked: the content without tag and span attributes (ca_base) and the
+   style of every cell of the table are what they were — given that lxml's tag and attribute edits keep them *)
+Theorem C17_set_span_changes_no_value : forall (a : calg) (x y z t mid : Z) (st st' : tstate),
+  WF st -> 0 <= x <= z -> 0 <= y <= t ->
+  (forall v, ca_base a (ca_to_cov a v) = ca_base a v) -> (forall v c r, ca_base a (ca_add_span a v c r) = ca_base a v) ->
+  t_set_span a x y z t false mid st = Some (st', true) ->
+  forall i j, 0 <= i -> 0 <= j ->
+  ca_base a (fst (gcell i j (abs_t st'))) = ca_base a (fst (gcell i j (abs_t st))) /\
+  snd (gcell i j (abs_t st')) = snd (gcell i j (abs_t st)).
+Proof. exact set_span_keeps_values_model. Qed.
+Print Assumptions C17_set_span_changes_no_value.
+
+(* del_span after set_span restores the table: every coordinate reads as before the pair (padded reading: the pair
+   may leave the rows of the area stored longer, completed with empty cells).  area_alg_ok = on the cells of the
+   area, lxml's edits undo each other (tag back, attributes deleted) and the attributes read back as written; the
+   correspondence check evaluates these laws (Transformspec.alg_cell_ok) on every span call it observes *)
+Theorem C17_del_span_after_set_span_restores : forall (a : calg) (x y z t mid : Z) (st st' : tstate),
+  WF st -> 0 <= x <= z -> 0 <= y <= t ->
+  t_set_span a x y z t false mid st = Some (st', true) -> area_alg_ok a x y z t (abs_t st) ->
+  exists st'', t_del_span a x y st' = Some (st'', true) /\ WF st'' /\
+               forall i j, 0 <= i -> 0 <= j -> gcell i j (abs_t st'') = gcell i j (abs_t st).
+Proof. exact span_roundtrip_model. Qed.
+Print Assumptions C17_del_span_after_set_span_restores.
+
+Example C17_span_hypotheses_inhabited : WF ex_table /\ area_alg_ok ex_alg 1 0 2 1 (abs_t ex_table) /\
+  exists st' st'', t_set_span ex_alg 1 0 2 1 false 0 ex_table = Some (st', true) /\
+                   t_del_span ex_alg 1 0 st' = Some (st'', true) /\ abs_t st'' = abs_t ex_table.
+Proof. exact ex_inhabited. Qed.
 
 (* ================= refuted on the model of the pinned code ================= *)
 (* F21: the pinned transpose raises on ragged rows (the repaired one gives the transposed closure) *)
